@@ -653,13 +653,20 @@ class IPPO(MultiAgentRLAlgorithm):
                     + self.gamma * self.gae_lambda * next_non_terminal * last_gae_lambda
                 )
 
-            advantages = advantages.reshape((-1,))
-            values = values.reshape((-1,))
+            # NOTE: Flatten in the row order of `concatenate_experiences_into_batches`
+            # (agent, step, env) so that every estimate stays with its own sample
+            n_agents = len(states)
+
+            def to_rows(x: torch.Tensor) -> torch.Tensor:
+                return x.reshape(num_steps, n_agents, -1).swapaxes(0, 1).reshape((-1,))
+
+            advantages = to_rows(advantages)
+            values = to_rows(values)
             returns = advantages + values
 
         states = concatenate_experiences_into_batches(states, obs_space)
         actions = concatenate_experiences_into_batches(actions, action_space)
-        log_probs = log_probs.reshape((-1,))
+        log_probs = to_rows(log_probs)
         experiences = (states, actions, log_probs, advantages, returns, values)
 
         # Move experiences to algo device
